@@ -37,7 +37,8 @@ pub struct WrapKV {
 
 impl Clone for WrapKV {
     fn clone(&self) -> Self {
-        if self.ctl.panic_clone.load(Ordering::SeqCst) {
+        // one-shot: the next clone (a handler cloning the store for its command) panics
+        if self.ctl.panic_clone.swap(false, Ordering::SeqCst) {
             panic!("harness: handler panic requested");
         }
         WrapKV {
@@ -210,6 +211,124 @@ impl Net {
         }
     }
 
+    /// N client connections issue SET/GET/DEL on a small key pool concurrently (unique values), while a
+    /// thread forces merges through a direct handle; returns the timestamped client-side history
+    fn netstress(&mut self, kv: &HashMap<String, u64>) -> String {
+        let clients = *kv.get("clients").unwrap_or(&4);
+        let ops = *kv.get("ops").unwrap_or(&40);
+        let nkeys = *kv.get("keys").unwrap_or(&2);
+        let seed = *kv.get("seed").unwrap_or(&1);
+        let big = *kv.get("big").unwrap_or(&10);
+        let Some(addr) = self.addr else { return "no-server".into() };
+        let t0 = Instant::now();
+        let stop = Arc::new(AtomicBool::new(false));
+        let merger = {
+            let h = self.handle.clone();
+            let stop = stop.clone();
+            std::thread::spawn(move || {
+                let mut n = 0u64;
+                while !stop.load(Ordering::SeqCst) {
+                    if let Some(h) = &h {
+                        let _ = h.verif_merge();
+                        n += 1;
+                    }
+                    std::thread::sleep(Duration::from_micros(500));
+                }
+                n
+            })
+        };
+        let mut joins = vec![];
+        for tid in 0..clients {
+            joins.push(std::thread::spawn(move || {
+                let mut out = vec![];
+                let Ok(mut s) = TcpStream::connect(addr) else { return vec![format!("{} connect - - 0 0 err", tid)] };
+                let _ = s.set_nodelay(true);
+                let mut x: u64 = seed.wrapping_mul(0x9E3779B97F4A7C15) ^ (tid + 1).wrapping_mul(0xD1B54A32D192ED03) | 1;
+                let mut next = move || {
+                    x ^= x << 13;
+                    x ^= x >> 7;
+                    x ^= x << 17;
+                    x
+                };
+                let mut buf = vec![];
+                for seq in 0..ops {
+                    let key = format!("k{}", next() % nkeys);
+                    let r = next() % 100;
+                    let (kind, arg, req) = if r < 40 {
+                        let size = if next() % 100 < big { 9000usize } else { 8 + (next() % 30) as usize };
+                        let mut v = Vec::with_capacity(size);
+                        v.extend_from_slice(&((tid << 32) | seq).to_be_bytes());
+                        while v.len() < size {
+                            v.push((tid as u8) ^ (seq as u8));
+                        }
+                        let mut rq = format!("*3\r\n$3\r\nSET\r\n${}\r\n{}\r\n${}\r\n", key.len(), key, v.len()).into_bytes();
+                        rq.extend_from_slice(&v);
+                        rq.extend_from_slice(b"\r\n");
+                        ("put", format!("{}.{}", tid, seq), rq)
+                    } else if r < 55 {
+                        ("del", "-".to_string(), format!("*2\r\n$3\r\nDEL\r\n${}\r\n{}\r\n", key.len(), key).into_bytes())
+                    } else {
+                        ("get", "-".to_string(), format!("*2\r\n$3\r\nGET\r\n${}\r\n{}\r\n", key.len(), key).into_bytes())
+                    };
+                    let inv = t0.elapsed().as_nanos();
+                    if s.write_all(&req).is_err() {
+                        out.push(format!("{} {} {} {} {} {} err:send", tid, kind, key, arg, inv, inv));
+                        break;
+                    }
+                    let deadline = Instant::now() + Duration::from_secs(20);
+                    let mut res = None;
+                    loop {
+                        if let Some(l) = reply_len(&buf) {
+                            if l > 0 && l <= buf.len() && !(buf[0] == b'$' && l == buf.len() && !buf.ends_with(b"\r\n")) {
+                                let frame: Vec<u8> = buf.drain(..l).collect();
+                                res = Some(frame);
+                                break;
+                            }
+                        }
+                        if let Some(e) = Net::read_some(&mut s, &mut buf, deadline) {
+                            out.push(format!("{} {} {} {} {} {} err:{}", tid, kind, key, arg, inv, t0.elapsed().as_nanos(), Net::end_name(e)));
+                            return out;
+                        }
+                    }
+                    let resp = t0.elapsed().as_nanos();
+                    let frame = res.unwrap();
+                    let shown = match (kind, frame.first()) {
+                        ("put", Some(b'+')) => "ok".to_string(),
+                        ("del", Some(b':')) => if &frame[1..frame.len() - 2] == b"1" { "true".into() } else if &frame[1..frame.len() - 2] == b"0" { "false".into() } else { format!("err:count{}", String::from_utf8_lossy(&frame[1..frame.len() - 2])) },
+                        ("get", Some(b'$')) => {
+                            if frame.starts_with(b"$-1") {
+                                "nil".into()
+                            } else {
+                                let e = frame.iter().position(|c| *c == b'\r').unwrap();
+                                let v = &frame[e + 2..frame.len() - 2];
+                                if v.len() >= 8 {
+                                    let id = u64::from_be_bytes(v[..8].try_into().unwrap());
+                                    let ok = v[8..].iter().all(|b| *b == ((id >> 32) as u8) ^ (id as u8));
+                                    format!("{}.{}{}", id >> 32, id & 0xffff_ffff, if ok { "" } else { "!corrupt" })
+                                } else {
+                                    format!("?{}", hex(v))
+                                }
+                            }
+                        }
+                        _ => format!("err:reply{}", hex(&frame[..frame.len().min(16)])),
+                    };
+                    out.push(format!("{} {} {} {} {} {} {}", tid, kind, key, arg, inv, resp, shown));
+                }
+                out
+            }));
+        }
+        let mut hist = vec![];
+        for j in joins {
+            if let Ok(v) = j.join() {
+                hist.extend(v);
+            }
+        }
+        stop.store(true, Ordering::SeqCst);
+        let n = merger.join().unwrap_or(0);
+        hist.push(format!("m merges - - 0 0 {}", n));
+        hist.join(";")
+    }
+
     pub fn step(&mut self, toks: &[&str]) -> String {
         self.step_inner(toks).unwrap_or_else(|| "bad-op".into())
     }
@@ -281,6 +400,44 @@ impl Net {
                     Ok(Err(_)) => "run-panicked".into(),
                     Err(_) => "timeout".into(),
                 })
+            }
+            ["srv.signal"] => {
+                let tx = self.shutdown_tx.take()?;
+                let _ = tx.send(());
+                Some("ok".into())
+            }
+            ["srv.wait", deadline_ms] => {
+                let d: u64 = deadline_ms.parse().ok()?;
+                let t0 = Instant::now();
+                loop {
+                    if self.server_done.load(Ordering::SeqCst) {
+                        return Some("returned".into());
+                    }
+                    if t0.elapsed() >= Duration::from_millis(d) {
+                        return Some("timeout".into());
+                    }
+                    std::thread::sleep(Duration::from_millis(2));
+                }
+            }
+            ["c.drain", id, ms] => {
+                // discard whatever arrives within `ms`
+                let deadline = Instant::now() + Duration::from_millis(ms.parse().ok()?);
+                let s = self.conns.get_mut(*id)?;
+                let mut buf = vec![];
+                let end = loop {
+                    if let Some(e) = Self::read_some(s, &mut buf, deadline) {
+                        break e;
+                    }
+                };
+                Some(format!("drained {} {}", buf.len(), Self::end_name(end)))
+            }
+            ["netstress", rest @ ..] => {
+                let mut kv = HashMap::new();
+                for t in rest {
+                    let (k, v) = t.split_once('=')?;
+                    kv.insert(k.to_string(), v.parse::<u64>().ok()?);
+                }
+                Some(self.netstress(&kv))
             }
             ["srv.alive"] => Some(
                 match &self.server_task {
